@@ -60,6 +60,12 @@ def main():
             entries += [("mutant",) + m for m in corpus.MUTANTS]
         if which in ("refactors", "all"):
             entries += [("refactor",) + r + (None,) for r in corpus.REFACTORS]
+        if which in ("refactors", "all"):
+            # whole-file behaviour-preserving rewrites produced independently (selftest/refactors/Rxx.diff + notes): all checks
+            import glob
+            for pf in sorted(glob.glob(os.path.join(HERE, "refactors", "*.diff"))):
+                entries.append(("refactor-patch", os.path.basename(pf)[:-5], pf, None, None,
+                                ["C%02d" % i for i in range(1, 21)], None))
         for e in entries:
             kind, mid, f, old, new, props, expect = e
             if filt and not any(x in mid for x in filt):
@@ -67,7 +73,11 @@ def main():
             n += 1
             root = os.path.join(base, mid)
             make_copy(root)
-            ok = apply_edit(root, f, old, new)
+            if kind == "refactor-patch":
+                rc, o = sh("patch -p1 -s < %s" % f, cwd=root)
+                ok = rc == 0
+            else:
+                ok = apply_edit(root, f, old, new)
             if ok and mid in corpus.EXTRA:
                 ef, eo, en = corpus.EXTRA[mid]
                 ok = apply_edit(root, ef, eo, en)
